@@ -159,7 +159,16 @@ func c05StressRound(e *Env, round int) error {
 		return nil
 	}
 	close(stopSrv)
-	swg.Wait()
+	srvDone := make(chan struct{})
+	go func() { swg.Wait(); close(srvDone) }()
+	select {
+	case <-srvDone:
+	case <-time.After(10 * time.Second):
+		e.Rep.Violate("impl", "c05-stress-hang", "responses could not be sent within 10 s after every call had returned: the receiving side no longer takes envelopes (a response was handed to a reply channel that nobody reads)", map[string]interface{}{"stress_round": round, "route": route, "seed": e.Seed})
+		go cc.Close()
+		go sc.Close()
+		return nil
+	}
 	time.Sleep(2 * time.Millisecond)
 	smu.Lock()
 	onStream := map[string]int{}
